@@ -167,8 +167,22 @@ func TestVerifC01(t *testing.T) {
 	checkEntry := func(sc string, hist []VEntry, e VEntry) {
 		res.Transitions++
 		base := vRunArmed(hist, e, nil, 0)
-		if again := vRunArmed(hist, e, nil, 0); again.obs != base.obs || len(again.choices) != len(base.choices) {
-			// the default run is not reproducible in this process (should not happen after the warm-up)
+		if again := vRunArmed(hist, e, nil, 0); again.obs != base.obs {
+			// two executions of the same history on fresh instances in this process disagree although nothing
+			// was deviated: something outside the entries (process-global state that an earlier execution left
+			// behind) influences the result.  No stable baseline: the deviations of this entry are skipped.
+			res.Counters["unstable_baseline"]++
+			report(sc, hist, e, "identical re-execution in the same process gives a different result ["+vEntryCmd(&e)+"]",
+				fmt.Sprintf("entry %s: the history was executed twice on fresh instances without any deviation: %s", e.String(), firstDiff(base.obs, again.obs)))
+			// what the process executed before is part of the cause, so the finding cannot be re-executed from
+			// this history alone: it is not subjected to the five-fold replay (like the cross-process digests)
+			if v := sigs["C01:identical re-execution in the same process gives a different result ["+vEntryCmd(&e)+"]"]; v != nil {
+				v.Prop = "C01x"
+			}
+			res.Executions++
+			return
+		} else if len(again.choices) != len(base.choices) {
+			// (lazy one-time initialisation in a library: same result, different number of choice points)
 			base = again
 			res.Counters["baseline_rerun"]++
 		}
